@@ -5,7 +5,10 @@
 //! `wbuf <desc> <pattern>`
 //!   desc:  data:<hex> | headers:<hex> | goaway:<id> | cancel:<id> | maxpush:<id> |
 //!          settings:<id>=<v>;… | pp:<id>:<hex> | wtf:<session> | st:<ty> | ctl:<id>=<v>;… |
-//!          enc | dec | wtu:<session> | wtb:<session> | pair:<ty>:<frame desc>
+//!          enc | dec | wtu:<session> | wtb:<session> | pair:<ty>:<frame desc> |
+//!          datac:<hex>|<hex>|… (also as the frame of a pair): `Frame::Data` over a payload `B: Buf` that is NOT
+//!          contiguous - exactly two segments: `bytes::buf::Chain<Bytes, Bytes>`, otherwise `Segs` (a deque of `Bytes`);
+//!          `-` or nothing = an empty segment
 //!   pattern (comma separated, `-` = none): <k> = the transport takes min(k, |chunk|) bytes of
 //!          `chunk()` and calls `advance` with that; a<cnt> = a bare `advance(cnt)`
 //! output: `all=<everything taken, in order> r<remaining> <taken hex>:r<remaining> …
@@ -122,6 +125,89 @@ fn build(desc: &str) -> Result<Box<dyn FnOnce() -> WriteBuf<Bytes>>, Bad> {
     })
 }
 
+/// a payload in segments, some possibly empty: `chunk()` is the first segment that has bytes (so the `Buf` contract holds:
+/// empty only when nothing remains), `advance` walks the segments and panics past the end like `Bytes::advance`
+pub(crate) struct Segs(pub(crate) std::collections::VecDeque<Bytes>);
+
+impl Buf for Segs {
+    fn remaining(&self) -> usize {
+        self.0.iter().map(|b| b.len()).sum()
+    }
+    fn chunk(&self) -> &[u8] {
+        self.0.iter().find(|b| !b.is_empty()).map(|b| &b[..]).unwrap_or(&[])
+    }
+    fn advance(&mut self, mut cnt: usize) {
+        while cnt > 0 {
+            let front = self.0.front_mut().expect("advance past the end");
+            if cnt <= front.len() {
+                front.advance(cnt);
+                return;
+            }
+            cnt -= front.len();
+            self.0.pop_front();
+        }
+    }
+}
+
+fn parse_segs(s: &str) -> Option<Vec<Bytes>> {
+    s.split('|').map(|h| if h.is_empty() { Some(Bytes::new()) } else { parse_hex(h).map(Bytes::from) }).collect()
+}
+
+/// `datac:…` / `pair:<ty>:datac:…` => (stream type of the pair, segments)
+fn chunked(desc: &str) -> Option<Result<(Option<u64>, Vec<Bytes>), ()>> {
+    if let Some(a) = desc.strip_prefix("datac:") {
+        return Some(parse_segs(a).map(|s| (None, s)).ok_or(()));
+    }
+    let rest = desc.strip_prefix("pair:")?;
+    let (ty, fd) = rest.split_once(':')?;
+    let a = fd.strip_prefix("datac:")?;
+    Some(match (ty.parse::<u64>(), parse_segs(a)) {
+        (Ok(v), Some(s)) => Ok((Some(v), s)),
+        _ => Err(()),
+    })
+}
+
+fn build_c<B: Buf>(ty: Option<u64>, payload: B) -> WriteBuf<B> {
+    match ty {
+        None => WriteBuf::from(Frame::Data(payload)),
+        Some(v) => WriteBuf::from((StreamType::from_value(v), Frame::Data(payload))),
+    }
+}
+
+fn run_pat<B: Buf>(mut b: WriteBuf<B>, ps: Vec<Pat>) -> String {
+    let mut out = vec![format!("r{}", b.remaining())];
+    let mut all = Vec::new();
+    for p in ps {
+        match p {
+            Pat::Take(k) => {
+                let c = b.chunk();
+                let n = k.min(c.len());
+                all.extend_from_slice(&c[..n]);
+                let taken = to_hex(&c[..n]);
+                b.advance(n);
+                out.push(format!("{}:r{}", taken, b.remaining()));
+            }
+            Pat::Adv(n) => {
+                b.advance(n);
+                out.push(format!("a:r{}", b.remaining()));
+            }
+        }
+    }
+    let mut rest = Vec::new();
+    loop {
+        let c = b.chunk();
+        if c.is_empty() {
+            break;
+        }
+        let n = c.len();
+        rest.extend_from_slice(c);
+        b.advance(n);
+    }
+    out.push(format!("left={}", to_hex(&rest)));
+    all.extend_from_slice(&rest);
+    format!("all={} {}", to_hex(&all), out.join(" "))
+}
+
 enum Pat {
     Take(usize),
     Adv(usize),
@@ -140,46 +226,28 @@ pub fn handle(w: &[&str]) -> String {
                     }
                 }
             }
+            match chunked(desc) {
+                Some(Err(())) => return "bad-op".into(),
+                Some(Ok((ty, mut segs))) => {
+                    return guarded(move || {
+                        if segs.len() == 2 {
+                            let b = segs.pop().unwrap();
+                            let a = segs.pop().unwrap();
+                            run_pat(build_c(ty, a.chain(b)), ps)
+                        } else {
+                            run_pat(build_c(ty, Segs(segs.into_iter().collect())), ps)
+                        }
+                    });
+                }
+                None => {}
+            }
             let mk = match build(desc) {
                 Ok(mk) => mk,
                 Err(Bad::Op) => return "bad-op".into(),
                 Err(Bad::Id) => return "bad-id".into(),
                 Err(Bad::Settings) => return "bad-settings".into(),
             };
-            guarded(move || {
-                let mut b = mk();
-                let mut out = vec![format!("r{}", b.remaining())];
-                let mut all = Vec::new();
-                for p in ps {
-                    match p {
-                        Pat::Take(k) => {
-                            let c = b.chunk();
-                            let n = k.min(c.len());
-                            all.extend_from_slice(&c[..n]);
-                            let taken = to_hex(&c[..n]);
-                            b.advance(n);
-                            out.push(format!("{}:r{}", taken, b.remaining()));
-                        }
-                        Pat::Adv(n) => {
-                            b.advance(n);
-                            out.push(format!("a:r{}", b.remaining()));
-                        }
-                    }
-                }
-                let mut rest = Vec::new();
-                loop {
-                    let c = b.chunk();
-                    if c.is_empty() {
-                        break;
-                    }
-                    let n = c.len();
-                    rest.extend_from_slice(c);
-                    b.advance(n);
-                }
-                out.push(format!("left={}", to_hex(&rest)));
-                all.extend_from_slice(&rest);
-                format!("all={} {}", to_hex(&all), out.join(" "))
-            })
+            guarded(move || run_pat(mk(), ps))
         }
         _ => "bad-op".into(),
     }
